@@ -51,6 +51,12 @@ func (ex *Exec) staticCall(st *State, fr *Frame, in ssa.CallInstruction, callee 
 			return ex.staticCall(st, fr, in, m, append([]SVal{bindings[0]}, args...), nil)
 		}
 	}
+	// sync.Map held in a package-level variable: Store and Load are modelled exactly, as a map
+	// from interface values to interface values (the variable is written only by init: sweeps)
+	if (name == "(*sync.Map).Store" || name == "(*sync.Map).Load") && len(args) >= 2 && args[0].HAddr != nil && strings.HasPrefix(args[0].HAddr.key, "global:") {
+		ex.syncMapOp(st, in, name, args)
+		return false
+	}
 	c := u.resolveLike(u.contractFor(callee))
 	if c != nil && !c.Inline {
 		if len(bindings) > 0 {
@@ -652,5 +658,46 @@ func (ex *Exec) builtin(st *State, in *ssa.Call, b *ssa.Builtin, args []SVal) {
 		ex.setVal(st, in, SVal{Val: Val{T: IntLit(0), Typ: in.Type()}})
 	default:
 		ex.unsupported(st, "builtin %s", b.Name())
+	}
+}
+
+// syncMapType: the Go map type that models a sync.Map (any -> any).
+func (u *Universe) syncMapType() *types.Map {
+	if u.smapType == nil {
+		e := types.NewInterfaceType(nil, nil)
+		u.smapType = types.NewMap(e, e)
+	}
+	return u.smapType
+}
+
+// syncMapRef: the (constant, non-nil, old) reference standing for the contents of the
+// sync.Map stored in package variable g.
+func (fc *FuncCtx) syncMapRef(g string) *Term {
+	r := fc.d.Const("smapref!"+sanitize(g), SInt)
+	if !fc.d.old[r.S] {
+		fc.d.old[r.S] = true
+		// included only in obligations that mention the map (relevance filter of global axioms)
+		fc.globalAxioms = append(fc.globalAxioms, Gt(r, IntLit(0)))
+	}
+	return r
+}
+
+func (ex *Exec) syncMapOp(st *State, in ssa.CallInstruction, name string, args []SVal) {
+	fc := ex.fc
+	mt := ex.u.syncMapType()
+	ref := fc.syncMapRef(strings.TrimPrefix(args[0].HAddr.key, "global:"))
+	vk, dk, vs, ds := fc.mapKeys(mt)
+	if name == "(*sync.Map).Store" {
+		ex.frameCheckMap(st, in, ref, mt)
+		ov := st.heap.read(fc.d, vk, vs, ref)
+		od := st.heap.read(fc.d, dk, ds, ref)
+		st.heap = st.heap.store(vk, ref, Store(ov, args[1].T, args[2].T))
+		st.heap = st.heap.store(dk, ref, Store(od, args[1].T, TTrue))
+		return
+	}
+	v := fc.mapLookup(st.heap, mt, ref, args[1].T)
+	has := fc.mapHas(st.heap, mt, ref, args[1].T)
+	if val := in.Value(); val != nil {
+		ex.setVal(st, val, SVal{Val: Val{Tuple: []Val{{T: v, Typ: mt.Elem()}, {T: has, Typ: types.Typ[types.Bool]}}}})
 	}
 }
